@@ -22,8 +22,11 @@ BUDGET_S = {"quick": 100, "thorough": 1200}
 
 def gen(rng, tier):
     n_cases = 220 if tier == "quick" else 3000
-    for _ in range(n_cases):
-        yield FU.gen_form_case(rng, tier, heur_p=0.45)
+    for k in range(n_cases):
+        if k % 10 == 9:
+            yield FU.gen_raising_seq_case(rng)      # the heuristic raises after it has changed the object (queries issued before)
+        else:
+            yield FU.gen_form_case(rng, tier, heur_p=0.45)
 
 
 def shrink(case):
